@@ -444,6 +444,8 @@ func (g *balGen) next(step int) balOp {
 		am := pickAmount(r, g.bal[f])
 		if r.Intn(2) == 0 && g.bal[f].Sign() > 0 {
 			am = new(big.Int).Rand(r, g.bal[f])
+		} else if r.Intn(3) == 0 {
+			am = new(big.Int).Set(g.bal[f]) // the whole balance: the owner's record is deleted
 		}
 		return balOp{Kind: "lock", From: g.addr(f), To: g.addr(l), Amount: am, Until: until, Details: det, Signers: g.alphaSigners()}
 	default:
@@ -452,8 +454,12 @@ func (g *balGen) next(step int) balOp {
 			e = int64(r.Intn(6)) - 1
 		}
 		if g.prop == "C09" && r.Intn(3) != 0 {
-			// mostly consecutive ticks so that every expiry epoch is visited
-			return balOp{Kind: "newEpochNetmap", Epoch: g.b.epoch + 1, Signers: []int{-1}}
+			// mostly consecutive ticks so that every expiry epoch is visited; sometimes a jump over several epochs
+			jump := int64(1)
+			if r.Intn(5) == 0 {
+				jump = 2 + int64(r.Intn(4))
+			}
+			return balOp{Kind: "newEpochNetmap", Epoch: g.b.epoch + jump, Signers: []int{-1}}
 		}
 		if r.Intn(2) == 0 {
 			return balOp{Kind: "newEpochNetmap", Epoch: g.b.epoch + 1 + int64(r.Intn(2)), Signers: g.alphaSigners()}
@@ -524,6 +530,35 @@ func balCorpus(b *balEnv) [][]balOp {
 			{Kind: "transfer", From: b.balance.BytesBE(), To: B, Amount: n(100), Signers: []int{-2}},
 			{Kind: "transferX", From: b.balance.BytesBE(), To: B, Amount: n(100), Details: []byte{5}, Signers: al},
 		},
+		{ // ticks delivered through Netmap that SKIP epoch numbers: every lock whose expiry lies in the skipped range is due
+			{Kind: "mint", To: A, Amount: n(1000), Details: []byte{1}, Signers: al},
+			{Kind: "lock", From: A, To: L, Amount: n(100), Until: 3, Details: []byte{1}, Signers: al},
+			{Kind: "lock", From: A, To: L2, Amount: n(200), Until: 5, Details: []byte{2}, Signers: al},
+			{Kind: "lock", From: A, To: b.addrs[balIdxLock0+2], Amount: n(300), Until: 9, Details: []byte{3}, Signers: al},
+			{Kind: "newEpochNetmap", Epoch: 1, Signers: al},
+			{Kind: "newEpochNetmap", Epoch: 2, Signers: al},
+			{Kind: "newEpochNetmap", Epoch: 6, Signers: al},
+			{Kind: "newEpochNetmap", Epoch: 20, Signers: al},
+		},
+		{ // two users lock their WHOLE balance (their records are deleted), both locks expire at one tick
+			{Kind: "mint", To: A, Amount: n(100), Details: []byte{1}, Signers: al},
+			{Kind: "mint", To: B, Amount: n(200), Details: []byte{1}, Signers: al},
+			{Kind: "lock", From: A, To: L, Amount: n(100), Until: 2, Details: []byte{1}, Signers: al},
+			{Kind: "lock", From: B, To: L2, Amount: n(200), Until: 2, Details: []byte{2}, Signers: al},
+			{Kind: "newEpoch", Epoch: 1, Signers: al},
+			{Kind: "newEpoch", Epoch: 2, Signers: al},
+			{Kind: "newEpoch", Epoch: 3, Signers: al},
+		},
+		{ // nested locks (user -> L2, L2 -> L and user -> L, L -> L2 orders) expiring at one tick: conservation must hold whatever the key order
+			{Kind: "mint", To: A, Amount: n(1000), Details: []byte{1}, Signers: al},
+			{Kind: "lock", From: A, To: L2, Amount: n(500), Until: 2, Details: []byte{1}, Signers: al},
+			{Kind: "lock", From: L2, To: L, Amount: n(300), Until: 2, Details: []byte{2}, Signers: al},
+			{Kind: "newEpoch", Epoch: 2, Signers: al},
+			{Kind: "lock", From: A, To: L, Amount: n(400), Until: 4, Details: []byte{3}, Signers: al},
+			{Kind: "lock", From: L, To: L2, Amount: n(100), Until: 4, Details: []byte{4}, Signers: al},
+			{Kind: "newEpoch", Epoch: 4, Signers: al},
+			{Kind: "newEpoch", Epoch: 5, Signers: al},
+		},
 		balManyLocks(b, 3, []int64{2, 5, 9}, []int64{1, 2, 3, 4, 5, 6, 9, 10}), // three pending locks, pairwise different expiries, visited one by one
 		balManyLocks(b, 40, nil, []int64{1, 2, 3}),                             // 40 locks expiring at one tick (+ one later)
 		{ // the committee-majority account and single members are not the Alphabet (they differ for n = 3)
@@ -546,9 +581,9 @@ func balCorpus(b *balEnv) [][]balOp {
 // balCorpusExtra: number of extra lock addresses corpus history ci needs.
 func balCorpusExtra(ci int) int {
 	switch ci {
-	case 5:
+	case 8:
 		return 4
-	case 6:
+	case 9:
 		return 41
 	}
 	return 0
@@ -595,6 +630,7 @@ type balMon struct {
 	prev    balObs
 	ledger  map[string]*big.Int // replay of the notification stream
 	premise bool                // the quantifier's premises still hold in this history
+	chain   bool                // C09 only: a lock was made out of a pending lock / self-transferred by the Alphabet (outside before_ok / nochain)
 	locks   map[string]*balLock
 	hist    []balOp
 }
@@ -642,7 +678,7 @@ func (m *balMon) step(op balOp, o balObs) {
 				// whole balance deletes and re-creates the record, which drops Until/Parent (model and
 				// contract agree). The C09 theorems speak about histories in which only burns and
 				// ticks name the lock account (before_ok); observation recorded in DESIGN.md 10.2.
-				m.premise = false
+				m.chain = true
 			}
 		case "lock":
 			ti := m.idx(op.To)
@@ -653,8 +689,9 @@ func (m *balMon) step(op balOp, o balObs) {
 			if l := m.locks[string(op.From)]; l != nil && !l.done {
 				// a lock made out of a pending lock account (never done by the Inner
 				// Ring; premise [nochain] of the C09 theorems): the release order of
-				// chained locks is outside the statement
-				m.premise = false
+				// chained locks is outside the C09 statement — conservation (C01) and
+				// authorisation (C02) are still judged
+				m.chain = true
 			}
 		}
 	}
@@ -738,7 +775,7 @@ func (m *balMon) step(op balOp, o balObs) {
 	if o.halt && op.Kind == "lock" {
 		m.locks[string(op.To)] = &balLock{parent: op.From, until: op.Until}
 	}
-	if m.prop == "C09" && o.halt && (op.Kind == "newEpoch" || op.Kind == "newEpochNetmap") {
+	if m.prop == "C09" && !m.chain && o.halt && (op.Kind == "newEpoch" || op.Kind == "newEpochNetmap") {
 		expect := map[int]*big.Int{}
 		for la, l := range m.locks {
 			li := m.idx([]byte(la))
